@@ -56,10 +56,10 @@ func CollectRaceReports(prefix, prop string) []RaceReport {
 	byKey := map[string]*RaceReport{}
 	anch := anchoredFiles[prop]
 	isAnch := func(file string) bool {
-		if !strings.HasPrefix(file, "/repo/") {
+		if !strings.HasPrefix(file, RepoDir()+"/") {
 			return false
 		}
-		rel := strings.TrimPrefix(file, "/repo/")
+		rel := strings.TrimPrefix(file, RepoDir()+"/")
 		for _, a := range anch {
 			if rel == a {
 				return true
@@ -84,7 +84,7 @@ func CollectRaceReports(prefix, prop string) []RaceReport {
 			f2, p2 := parseAccess(strings.Split(secs[1], "\n"))
 			top := func(fs, ps []string) (string, string) {
 				for i, p := range ps {
-					if strings.HasPrefix(p, "/repo/") {
+					if strings.HasPrefix(p, RepoDir()+"/") {
 						return fs[i], p
 					}
 				}
